@@ -20,7 +20,7 @@ RULE = ('random grammars with 2-4 common, 2-4 match (single token, multi token, 
 REGRESSIONS = [(0, {'i': 9779})]      # cyclic-abstract-stale-inheritance (found by the thorough tier)
 REQUIRED = {'grammars': 100, 'kinds_checked': 500, 'isinstance_pairs': 5000, 'abstract_results_observed': 500,
             'abstract_cycles': 5, 'match_before_common_alternatives': 5, 'objects_checked': 1000,
-            'abstract_reference_in_sequence_alternatives': 20}
+            'abstract_reference_in_sequence_alternatives': 20, 'all_terminal_alternatives_with_base_types': 10}
 
 
 class Gen:
@@ -92,6 +92,10 @@ class Gen:
             elif c < 0.92:
                 alts.append(Seq([Ref(r.choice(self.match)), Ref(r.choice(self.match))]))
                 self.features.add('all-match-seq')
+            elif c < 0.935:
+                # only terminals, among them base types whose text differs from str() of the converted value (+5, "s", 1.50)
+                alts.append(Seq([self.k(), Ref(r.choice(['INT', 'STRING', 'FLOAT', 'BOOL', 'INT'])), self.k('t')]))
+                self.features.add('all-terminal-seq-with-base-type')
             elif c < 0.96:
                 # sequences whose first non-match reference is another abstract rule
                 later = self.abs[i + 1:]
@@ -236,6 +240,8 @@ def _one(ctx, i, rep=None):
         ctx.count('match_before_common_alternatives')
     if 'abstract-ref-in-sequence' in gen.features:
         ctx.count('abstract_reference_in_sequence_alternatives')
+    if 'all-terminal-seq-with-base-type' in gen.features:
+        ctx.count('all_terminal_alternatives_with_base_types')
     kinds = RP.rule_kinds(g)
     for rl in g.rules:
         ctx.count('kinds_checked')
